@@ -212,7 +212,7 @@ pub fn events_for_case(ci: usize, case: &Value) -> Vec<Value> {
 
 /// identifiers with hyphens: type references, component and alternative names, enumerals (the generated module sets have none)
 pub fn hyphen_events(ci: usize) -> Vec<Value> {
-    let text = "Hyph-Mod DEFINITIONS AUTOMATIC TAGS ::= BEGIN\nDir-ection ::= ENUMERATED { going-down, up-2, plain }\nRec-ord ::= SEQUENCE { first-name UTF8String, nick-name UTF8String OPTIONAL, dir Dir-ection, inl ENUMERATED { in-line, other }, ... }\nCho-ice ::= CHOICE { alt-one INTEGER, alt-two Rec-ord }\nLst-of ::= SEQUENCE OF Dir-ection\nEND\n".to_string();
+    let text = "Hyph-Mod DEFINITIONS AUTOMATIC TAGS ::= BEGIN\nDir-ection ::= ENUMERATED { going-down, up-2, plain }\nRec-ord ::= SEQUENCE { first-name UTF8String, nick-name UTF8String OPTIONAL, dir Dir-ection, inl ENUMERATED { in-line, other }, ... }\nCho-ice ::= CHOICE { alt-one INTEGER, alt-two Rec-ord }\nLst-of ::= SEQUENCE OF Dir-ection\nempty-list SEQUENCE OF INTEGER ::= {}\nsome-list SEQUENCE OF INTEGER ::= { 1, 2 }\nEND\n".to_string();
     let (o, _) = run::compile_ts(&[text.clone()]);
     let status = if o.status == "ok" && !o.warnings.is_empty() { "warn".to_string() } else { o.status.clone() };
     let mut evs = vec![json!({"ev": "tsbegin", "case": ci, "status": status, "asn": text, "balanced": true,
